@@ -397,6 +397,28 @@ pub fn scenario(stream: &str, r: &mut Rng, idx: u64) -> Vec<String> {
                 }
             }
         }
+        "big" => {
+            // C16: the bound must not depend on the number of entries
+            let n = *r.pick(&[20000u64, 50000, 100000]);
+            let levels = *r.pick(&[0u64, 1, 2, 3]);
+            let (bs, minbs) = *r.pick(&[(8192u64, 1024u64), (1024, 1024), (256, 256)]);
+            out.push(format!("bigfile {} codec=0 bs={} minbs={} iv={} levels={}", n, bs, minbs, r.pick(&[1u64, 8, 64]), levels));
+            out.push("cnew 0".into());
+            for _ in 0..120 {
+                let op = match r.below(10) {
+                    0 => "first".to_string(),
+                    1 => "last".to_string(),
+                    2 | 3 => "next".to_string(),
+                    4 | 5 => "prev".to_string(),
+                    6 => "reset".to_string(),
+                    _ => {
+                        let q = (r.below(3 * n + 10) as u32).to_be_bytes();
+                        format!("{} {}", r.pick(&["ge", "le", "eq"]), hex(&q))
+                    }
+                };
+                out.push(format!("c 0 {}", op));
+            }
+        }
         "seek" => {
             // C02: fresh / reset cursors, probes at every equivalence class
             let o = CfgOpts { all_codecs: false, deep: true, extreme_levels: false };
